@@ -88,7 +88,13 @@ def generate(seed, tier, index):
                 n = rng.choice([0, 1, 2, 3, 17, 100, 300])
                 pairs.append([e["name"], {"blob_hex": bytes(rng.randrange(256) for _ in range(n)).hex(),
                                           "format": rng.choice([".fits", ".jpg", "", ".x\xe9"])}, None])
-        steps.append({"op": "write", "c": rng.randrange(nclients), "dev": d, "vec": v["name"], "els": pairs})
+        step = {"op": "write", "c": rng.randrange(nclients), "dev": d, "vec": v["name"], "els": pairs}
+        if v["kind"] in ("Switch", "Text") and len(els) >= 2 and rng.random() < 0.3:
+            # a second submit on the same property by the same client, issued before the answer to the first can have arrived
+            e2 = rng.choice(els)
+            step["then"] = [[e2["name"], rng.choice(["On", "Off"]) if v["kind"] == "Switch" else V.rand_text(rng, maxlen=10), None]]
+            step["then_gap"] = rng.choice([0, 0, 1, 2])
+        steps.append(step)
     net = {"latency": rng.choice(["zero", "lan", "slow", "bursty", "skew"]),
            "frag": rng.choice(["whole", "fixed:1", "fixed:7", "fixed:64", "random", "random", "coalesce"]),
            "hwm": rng.choice([0, 64, 65536])}
@@ -141,6 +147,14 @@ def execute(scen):
             res = apply_step(stack, {"op": "c_write", "c": st["c"], "dev": st["dev"], "vec": st["vec"],
                                      "els": [[n, v] for n, v, _ in st["els"]]})
             kind = vspec["kind"]
+            if st.get("then") and not res.skipped and not res.error:
+                if st.get("then_gap"):
+                    sim.loop.step_iterations(st["then_gap"])
+                res2 = apply_step(stack, {"op": "c_write", "c": st["c"], "dev": st["dev"], "vec": st["vec"],
+                                          "els": [[n, v] for n, v, _ in st["then"]]})
+                if res2.error:
+                    res = res2
+                probes["second_submit_before_answer"] = probes.get("second_submit_before_answer", 0) + 1
             f2 = dict(facts, kind=kind)
             ctx = f"write {st['dev']}.{st['vec']} {[(n, (v if not isinstance(v, dict) else 'BLOB[%d]' % (len(v['blob_hex']) // 2))) for n, v, _ in st['els']]}"
             if res.skipped:
@@ -172,9 +186,11 @@ def execute(scen):
                 order = [e["name"] for e in names]
                 sent = sorted({n: v for n, v, _ in st["els"]}.items(), key=lambda nv: order.index(nv[0]))
                 new = apply_switch_write(vspec["rule"], cur, sent)
+                if st.get("then"):
+                    new = apply_switch_write(vspec["rule"], new, [(n, v) for n, v, _ in st["then"]])
                 for n, v in new.items():
                     expected[(st["dev"], st["vec"], n)] = v
-            addressed = {n for n, _, _ in st["els"]}
+            addressed = {n for n, _, _ in st["els"]} | {n for n, _, _ in st.get("then", [])}
             for key in before:
                 d, vn, en = key
                 if en.startswith("#"):
@@ -192,7 +208,7 @@ def execute(scen):
                 break
             # addressed values (last occurrence of a name wins)
             last = {}
-            for n, v, num in st["els"]:
+            for n, v, num in list(st["els"]) + list(st.get("then", [])):
                 last[n] = (v, num)
             for n, (v, num) in last.items():
                 got = after[(st["dev"], st["vec"], n)]
